@@ -72,7 +72,36 @@ pub fn run(ctx: &Ctx, rep: &mut Report) {
             let mut bits: u32 = 0x3ff;
             let mut live = Tok::new(&world.dict, mode);
             let mut split_list = MorphemeList::empty(&world.dict);
+            // a second result list fed by the same tokenizer: the split list moves between the two
+            let mut alt_list = MorphemeList::empty(&world.dict);
             let mut history: Vec<Value> = vec![];
+            // the shared split list starts out attached to a result list that was collected under a narrow field
+            // request and is never refreshed afterwards
+            let mut frozen_list = MorphemeList::empty(&world.dict);
+            {
+                let compounds: Vec<String> = (0..=world.users.len())
+                    .flat_map(|d| world.lexicon_of(d).entries.iter().filter(|e| e.split_a.len() >= 2 || e.split_b.len() >= 2).map(|e| e.key.clone()).collect::<Vec<_>>())
+                    .collect();
+                if !compounds.is_empty() {
+                    let text: String = (0..3).map(|_| rng.pick(&compounds).clone()).collect::<Vec<_>>().join("。");
+                    let _ = guard(|| {
+                        live.tok.set_subset(subset_of(0x0c4));
+                        live.tok.reset().push_str(&text);
+                        live.tok.do_tokenize()?;
+                        frozen_list.collect_results(&mut live.tok)?;
+                        for i in 0..frozen_list.len() {
+                            for sm in [Mode::A, Mode::B] {
+                                if frozen_list.split_into(sm, i, &mut split_list)? {
+                                    return Ok::<_, sudachi::error::SudachiError>(true);
+                                }
+                            }
+                        }
+                        Ok(false)
+                    });
+                    live.tok.set_subset(subset_of(bits));
+                    history.push(json!({"op": "prelude: analyse under a narrow request into a list that is kept, split one of its morphemes into the shared split list", "text": text}));
+                }
+            }
             let n_ops = 5 + rng.below(36);
             let mut ok_history = true;
             for _ in 0..n_ops {
@@ -94,6 +123,47 @@ pub fn run(ctx: &Ctx, rep: &mut Report) {
                         }
                         live.tok.set_subset(subset_of(bits));
                         history.push(json!({"op": "set_subset", "bits": bits}));
+                    }
+                    3 => {
+                        // analyse into the second result list
+                        let text = gen_text(&mut rng, &keys);
+                        history.push(json!({"op": "analyse_into_second_list", "text": clip(&text, 80), "bytes": text.len()}));
+                        let r = guard(|| {
+                            live.tok.reset().push_str(&text);
+                            live.tok.do_tokenize()?;
+                            alt_list.collect_results(&mut live.tok)
+                        });
+                        match r {
+                            Ok(_) => {}
+                            Err(p) => {
+                                rep.skipped_panic(&p, json!({"history": history}));
+                                ok_history = false;
+                                break;
+                            }
+                        }
+                        // split a morpheme of the second list into the shared split list
+                        if alt_list.len() > 0 && rng.chance(2, 3) {
+                            let idx = rng.below(alt_list.len());
+                            let sm = if rng.chance(1, 2) { Mode::A } else { Mode::B };
+                            split_list.clear();
+                            let r = guard(|| {
+                                alt_list.split_into(sm, idx, &mut split_list)?;
+                                let reused: Vec<(u32, [String; 10])> = (0..split_list.len()).map(|k| { let m = split_list.get(k); (m.word_id().as_raw(), field_values(m.get_word_info())) }).collect();
+                                let mut fresh_list = MorphemeList::empty(&world.dict);
+                                alt_list.split_into(sm, idx, &mut fresh_list)?;
+                                let fresh: Vec<(u32, [String; 10])> = (0..fresh_list.len()).map(|k| { let m = fresh_list.get(k); (m.word_id().as_raw(), field_values(m.get_word_info())) }).collect();
+                                Ok::<_, sudachi::error::SudachiError>((reused, fresh))
+                            });
+                            if let Ok(Ok((a, b))) = r {
+                                rep.count("splits_into_reused_list_compared", 1);
+                                let same = a.len() == b.len() && a.iter().zip(b.iter()).all(|(x, y)| x.0 == y.0 && (0..10).all(|f| bits & (1 << f) == 0 || x.1[f] == y.1[f]));
+                                if !same {
+                                    rep.violation("history_dependence", "split_into", &format!("splitting morpheme {} of the second list into the shared split list gives {:?}, into a fresh list {:?}", idx, a.iter().map(|x| (x.0, x.1[3].clone(), x.1[5].clone())).collect::<Vec<_>>(), b.iter().map(|x| (x.0, x.1[3].clone(), x.1[5].clone())).collect::<Vec<_>>()), "", json!({"world_index": wi, "history": history, "requested_bits": bits, "world": world.describe(true)}));
+                                    ok_history = false;
+                                    break;
+                                }
+                            }
+                        }
                     }
                     2 if live.list.len() > 0 => {
                         // on-demand split into a second reused list
